@@ -23,6 +23,12 @@
 (*                number of active backtracking frames;                        *)
 (*   RestoreExact - every restore() returns the registers to the values they   *)
 (*                had when the matching checkpoint() was taken.                *)
+(*   FurthestInRange - state.py fail(): the furthest-failure position that  *)
+(*                parse() reports is -1 (no terminal recorded a failure) or    *)
+(*                lies in start_pos..len(input) (C13); terminals record at the  *)
+(*                position where they started, nothing is recorded inside a     *)
+(*                negative predicate or implicit trivia, a failing negative      *)
+(*                predicate records at its own position;                         *)
 (* Snapshot stacks hold full copies here; that the delta encoding of           *)
 (* stack.py behaves like full copies is DeltaStack => SnapStack (C09).         *)
 (*                                                                         *)
@@ -102,8 +108,15 @@ LeaveRule(x, F) ==
      ELSE IF g[n].mod = "_" THEN Return(MergeBuf(x3), "ok")
      ELSE Return(Emit1(DropBuf(x3), <<n, F.start, x3.pos, TopOf(x3.bufs)>>), "ok")
 
-\* ---- a terminal: succeeds moving pos by n, or fails touching nothing --------
-Term(x, ok, n) == IF ok THEN Return([x EXCEPT !.pos = @ + n], "ok") ELSE Return(x, "fail")
+\* ---- state.py fail(): furthest failure position -------------------------------
+\* (the expected / unexpected label sets are not modelled: no statement pins them; C01, C15 compare them between runs)
+Record(x)      == IF x.negd > 0 \/ x.supp THEN x ELSE [x EXCEPT !.fp = IF x.pos > @ THEN x.pos ELSE @]
+RecordForced(x) == IF x.supp THEN x ELSE [x EXCEPT !.fp = IF x.pos > @ THEN x.pos ELSE @]
+
+\* ---- a terminal: succeeds moving pos by n, or fails touching nothing (and records the failure at its start) --------
+Term(x, ok, n) == IF ok THEN Return([x EXCEPT !.pos = @ + n], "ok") ELSE Return(Record(x), "fail")
+\* ANY, SOI, EOI and PEEK / POP on an empty stack fail without recording anything
+TermQuiet(x, ok, n) == IF ok THEN Return([x EXCEPT !.pos = @ + n], "ok") ELSE Return(x, "fail")
 
 \* parse_trivia(children) runs before the frame below it continues
 TriviaF == [f |-> "trivia", ph |-> "start"]
@@ -116,8 +129,8 @@ EvalStep(x, e) ==
     [] e.k = "istr"  -> Term(x, MatchesAtCI(inp, P, e.s), Len(e.s))
     [] e.k = "range" -> Term(x, P < Len(inp) /\ InRange(inp[P + 1], e.lo, e.hi), 1)
     [] e.k = "cls"   -> Term(x, P < Len(inp) /\ InClass(e.n, inp[P + 1]), 1)
-    [] e.k = "any"   -> Term(x, P < Len(inp), 1)
-    [] e.k = "soi"   -> Term(x, P = 0, 0)
+    [] e.k = "any"   -> TermQuiet(x, P < Len(inp), 1)
+    [] e.k = "soi"   -> TermQuiet(x, P = 0, 0)
     \* EOI is a built-in (normal) rule: it always emits its pair; an enclosing atomic rule filters it
     [] e.k = "eoi"   -> IF P = Len(inp) THEN Return(Emit1(x, <<"EOI", P, P, <<>>>>), "ok") ELSE Return(x, "fail")
     [] e.k = "ref"   -> EnterRule(x, e.n)
@@ -129,21 +142,22 @@ EvalStep(x, e) ==
     \* bounded repetitions delegate to their unrolled sequence (postfix.py: _unrolled)
     [] e.k \in {"plus", "exact", "min", "max", "minmax"} -> Replace(x, <<EvalF(Unroll(e))>>)
     [] e.k = "and"   -> Replace(NewBuf(Checkpoint(x)), <<[f |-> "and"], EvalF(e.e)>>)
-    [] e.k = "not"   -> Replace(NewBuf(Checkpoint(x)), <<[f |-> "not"], EvalF(e.e)>>)
+    [] e.k = "not"   -> Replace([NewBuf(Checkpoint(x)) EXCEPT !.negd = @ + 1], <<[f |-> "not"], EvalF(e.e)>>)
     [] e.k = "tag"   -> Replace(x, <<EvalF(e.e)>>)
     \* stack terminals (terminals.py)
     [] e.k = "pushlit" -> Return([x EXCEPT !.ustk = Append(@, e.s)], "ok")
     [] e.k = "push"  -> Replace(NewBuf(x), <<[f |-> "push", start |-> P], EvalF(e.e)>>)
     [] e.k = "peek"  -> IF S = <<>> THEN Return(x, "fail") ELSE Term(x, MatchesAt(inp, P, TopOf(S)), Len(TopOf(S)))
-    [] e.k = "pop"   -> IF S = <<>> \/ ~MatchesAt(inp, P, TopOf(S)) THEN Return(x, "fail")
+    [] e.k = "pop"   -> IF S = <<>> THEN Return(x, "fail")
+                        ELSE IF ~MatchesAt(inp, P, TopOf(S)) THEN Return(Record(x), "fail")
                         ELSE Return([x EXCEPT !.pos = P + Len(TopOf(S)), !.ustk = ButLast(S)], "ok")
-    [] e.k = "drop"  -> IF S = <<>> THEN Return(x, "fail") ELSE Return([x EXCEPT !.ustk = ButLast(S)], "ok")
+    [] e.k = "drop"  -> IF S = <<>> THEN Return(Record(x), "fail") ELSE Return([x EXCEPT !.ustk = ButLast(S)], "ok")
     [] e.k = "peekall" -> LET s == Concat(Rev(S)) IN Term(x, MatchesAt(inp, P, s), Len(s))
     \* PopAll takes its own checkpoint, pops entry by entry, and restores on the first mismatch
     [] e.k = "popall"  -> LET s == Concat(Rev(S))
                               x1 == Checkpoint(x)
                           IN IF MatchesAt(inp, P, s) THEN Return([Commit([x1 EXCEPT !.ustk = <<>>]) EXCEPT !.pos = P + Len(s)], "ok")
-                             ELSE Return(Restore(x1), "fail")
+                             ELSE Return(Record(Restore(x1)), "fail")
     [] e.k = "peekslice" -> LET s == Concat(SliceOf(S, e.ha, e.a, e.hb, e.b)) IN Term(x, MatchesAt(inp, P, s), Len(s))
 
 \* ---- a sub-parse returned into frame F (x.ret is "ok" or "fail") -------------
@@ -168,7 +182,10 @@ ReturnStep(x, F) ==
                        ELSE Return(DropBuf(Restore(x)), "ok")
     \* prefix.py: always restore; the children list is thrown away
     [] F.f = "and"  -> Return(DropBuf(Restore(x)), x.ret)
-    [] F.f = "not"  -> Return(DropBuf(Restore(x)), IF ok THEN "fail" ELSE "ok")
+    \*   a failing negative predicate records at its own (restored) position, even inside another predicate
+    [] F.f = "not"  -> LET x1 == DropBuf(Restore(x))
+                           x2 == IF ok THEN RecordForced(x1) ELSE x1
+                       IN Return([x2 EXCEPT !.negd = @ - 1], IF ok THEN "fail" ELSE "ok")
     \* terminals.py: Push - no restore on failure
     [] F.f = "push" -> IF ok THEN Return(MergeBuf([x EXCEPT !.ustk = Append(@, SubSeq(inp, F.start + 1, x.pos))]), "ok")
                        ELSE Return(DropBuf(x), "fail")
@@ -177,14 +194,16 @@ ReturnStep(x, F) ==
                          ELSE LET x1 == DropBuf(Restore(x))
                               IN IF F.ph = "ws" /\ "COMMENT" \in DOMAIN g
                                  THEN Replace(NewBuf(Checkpoint(x1)), <<[F EXCEPT !.ph = "cm"], EvalF(Ref("COMMENT"))>>)
-                                 ELSE [x1 EXCEPT !.ctl = ButLast(@), !.ret = "none"]
+                                 ELSE [x1 EXCEPT !.ctl = ButLast(@), !.ret = "none", !.supp = FALSE]
 
 \* parse_trivia entered (or looping): nothing when atomic or when neither rule exists
 TriviaStart(x, F) ==
   IF x.adepth > 0 \/ ~HasTrivia(g) THEN [x EXCEPT !.ctl = ButLast(@)]
-  ELSE IF "WHITESPACE" \in DOMAIN g
-       THEN Replace(NewBuf(Checkpoint(x)), <<[F EXCEPT !.ph = "ws"], EvalF(Ref("WHITESPACE"))>>)
-       ELSE Replace(NewBuf(Checkpoint(x)), <<[F EXCEPT !.ph = "cm"], EvalF(Ref("COMMENT"))>>)
+  \* "with self.suppress_failures()": implicit rules never contribute to the reported failure
+  ELSE LET xs == [x EXCEPT !.supp = TRUE]
+       IN IF "WHITESPACE" \in DOMAIN g
+          THEN Replace(NewBuf(Checkpoint(xs)), <<[F EXCEPT !.ph = "ws"], EvalF(Ref("WHITESPACE"))>>)
+          ELSE Replace(NewBuf(Checkpoint(xs)), <<[F EXCEPT !.ph = "cm"], EvalF(Ref("COMMENT"))>>)
 
 Step(x) ==
   LET F == TopOf(x.ctl)
@@ -196,7 +215,8 @@ Step(x) ==
 M0 == [ctl |-> <<EvalF(Ref("r"))>>, ret |-> "none",
        pos |-> k, ustk |-> <<>>, rstk |-> <<>>, adepth |-> 0,
        usnaps |-> <<>>, rsnaps |-> <<>>, asnaps |-> <<>>, poshist |-> <<>>,
-       bufs |-> << <<>> >>, tr |-> <<>>]
+       bufs |-> << <<>> >>, tr |-> <<>>,
+       fp |-> -1, negd |-> 0, supp |-> FALSE]
 
 Init == /\ g \in Pick(Grammars)
         /\ inp \in Inputs
@@ -239,7 +259,11 @@ RestoreExact ==
          LET cp == tr[Back(j - 1, 0)]
          IN tr[j].pos = cp.pos /\ tr[j].ustk = cp.ustk /\ tr[j].rdepth = cp.rdepth /\ tr[j].adepth = cp.adepth
 
+\* C13 on the design: what a failed parse() reports as furthest position
+FurthestInRange == /\ m.fp = -1 \/ (k <= m.fp /\ m.fp <= Len(inp))
+                   /\ Halted => (m.negd = 0 /\ ~m.supp)
+
 \* ---- emission for the conformance harness -----------------------------------------
 OutJ(o) == IF o.ok THEN o.pairs ELSE 0
-Emit == Halted => PrintT(ToJson([g |-> g, inp |-> inp, k |-> k, out |-> OutJ(Result), tr |-> m.tr]))
+Emit == Halted => PrintT(ToJson([g |-> g, inp |-> inp, k |-> k, out |-> OutJ(Result), tr |-> m.tr, fp |-> m.fp]))
 =============================================================================
